@@ -125,6 +125,10 @@ func (h *H) queryCase(id string, mask uint32, ops []qop) {
 				return fmt.Sprintf("%d,%d,%d,%d", ws.Cols, ws.Rows, ws.XPixel, ws.YPixel)
 			})
 		case "clip":
+			if q.mode == "early" {
+				res = h.clipEarly(f, q.text)
+				break
+			}
 			res = guardStr(2*time.Second, func() string {
 				ctx, cancel := context.WithTimeout(context.Background(), 60*time.Millisecond)
 				defer cancel()
@@ -158,6 +162,48 @@ func (h *H) queryCase(id string, mask uint32, ops []qop) {
 	}
 }
 
+// clipEarly forces the schedule "the clipboard reply is parsed before ClipboardPop has reached its
+// select" (seeded change C03-m7): the reply is put on the wire first, the requester is called once the
+// parser has taken the bytes (plus a pause well inside the 10 ms the hand-off waits for a requester).
+// An attempt in which more than 6 ms passed before the call is not a valid instance of the schedule
+// and is repeated (up to 5 times); time values only bound the attempt, the verdict is taken from a
+// valid attempt: the reply must reach the requester.
+func (h *H) clipEarly(f *inp.Fixture, text string) string {
+	reply := "\x1b]52;c;" + base64.StdEncoding.EncodeToString([]byte(text)) + "\x1b\\"
+	pop := func() string {
+		return guardStr(2*time.Second, func() string {
+			ctx, cancel := context.WithTimeout(context.Background(), 60*time.Millisecond)
+			defer cancel()
+			s, err := f.Vx.ClipboardPop(ctx)
+			if err != nil {
+				return "err"
+			}
+			rs := make([]rune, len(s))
+			for i := 0; i < len(s); i++ {
+				rs[i] = rune(s[i])
+			}
+			return "=" + inp.Cps(rs)
+		})
+	}
+	for attempt := 0; attempt < 5; attempt++ {
+		t0 := time.Now()
+		f.Fc.InjectString(reply)
+		for k := 0; k < 2000 && f.Fc.Pending() > 0; k++ {
+			time.Sleep(50 * time.Microsecond)
+		}
+		time.Sleep(1500 * time.Microsecond)
+		if time.Since(t0) > 6*time.Millisecond {
+			// not an instance of the schedule (the hand-off's window may be over): let the reply expire, retry
+			h.r.Count("clip-early-retry")
+			time.Sleep(15 * time.Millisecond)
+			continue
+		}
+		h.r.Count("clip-early-forced")
+		return pop()
+	}
+	return "not-forced"
+}
+
 func (h *H) genQuery(i int) {
 	rng := h.rng.Fork(uint64(i) + 5000000)
 	// size queries need both size capabilities and no in-band resize
@@ -185,6 +231,9 @@ func (h *H) genQuery(i int) {
 			}
 		default:
 			txt := []string{"hello", "", "世界", "a", "x y\n"}[rng.Intn(5)]
+			if rng.Chance(1, 3) {
+				mode = "early"
+			}
 			ops = append(ops, qop{kind: "clip", text: txt, mode: mode})
 		}
 	}
